@@ -139,14 +139,20 @@ Theorem c12_gc_never_live x c now S k e :
   st (fst (gc_op now S)) !! k = Some e.
 Proof. exact (gc_never_live x c now S k e). Qed.
 
-(* INDEXES IN STEP: after GC — and after every local operation — st, mi and vi hold the same ids (vi without
-   duplicates, versions bounded by the counter). PARTIAL: snapshot reload (OReload) is outside [wf_local]; its
-   bookkeeping is tied by the correspondence runs only. *)
+(* INDEXES IN STEP: after GC — and after every local operation, snapshot reload included, along every history
+   from the empty store — st, mi and vi hold the same ids (vi without duplicates, versions bounded by the counter). *)
 Theorem c12_indexes_in_step_gc x now S : Inv x S -> Inv x (fst (gc_op now S)).
 Proof. exact (gc_preserves_inv x now S). Qed.
 
-Theorem c12_indexes_in_step_hist_partial c x h S t : Inv x S -> hist_wf c x S t h -> Inv x (run_store c x S h).
+Theorem c12_indexes_in_step_hist c x h S t : Inv x S -> hist_wf c x S t h -> Inv x (run_store c x S h).
 Proof. exact (local_hist_inv c x h S t). Qed.
+
+(* SNAPSHOT RELOAD (Snapshot, then silence.New on it) keeps the content and rebuilds consistent indexes, whatever
+   order Go's map iteration takes; the new object's version is 1. *)
+Theorem c12_reload_keeps_content x S order :
+  Inv x S ->
+  exists S', reload_op x S order = (S', RReloaded) /\ st S' = st S /\ Inv x S' /\ ver S' = 1.
+Proof. exact (reload_spec x S order). Qed.
 
 Theorem c12_inv_empty x : Inv x empty_store.
 Proof. exact (Inv_empty x). Qed.
@@ -161,6 +167,7 @@ Definition ex_h : list (Z * op) :=
     (1200, OSet (mkSil "id0" [[mkM MEq "a" "2"]] 1000 3000 0 "bob" "other" []) "id1" 50);   (* replace *)
     (1300, OExpire "id1");
     (1300, OExpire "id1");
+    (1400, OReload []);
     (4800, OGC);
     (4901, OGC) ].
 Example c12_history_nonvacuous :
@@ -171,6 +178,7 @@ Example c12_history_nonvacuous :
                   mkMsil (mkSil "id1" [[mkM MEq "a" "2"]] 1200 3000 1200 "bob" "other" []) 6600];
     RExpireOk [mkMsil (mkSil "id1" [[mkM MEq "a" "2"]] 1200 1300 1300 "bob" "other" []) 4900];
     RExpireOk [];
+    RReloaded;
     RGC 1%nat false;
     RGC 1%nat false ] /\
   hist_wf ex_c ex_x empty_store 0 ex_h.
@@ -179,5 +187,6 @@ Proof. vm_compute. repeat split; try discriminate; try reflexivity. Qed.
 Print Assumptions c12_edit_in_place_iff.
 Print Assumptions c12_history_rewrite_expires_old.
 Print Assumptions c12_no_reactivation.
-Print Assumptions c12_indexes_in_step_hist_partial.
+Print Assumptions c12_indexes_in_step_hist.
+Print Assumptions c12_reload_keeps_content.
 Print Assumptions c12_gc_never_live.
